@@ -230,6 +230,14 @@ pub fn run(tier: &str, seed: u64, outdir: &str) {
                     d["proof"] = json!([{"type": "DataIntegrityProof", "cryptosuite": "eddsa-rdfc-2022", "verificationMethod": "did:web:x#k", "proofPurpose": "assertionMethod", "proofValue": "z3abc"}, own]);
                 }), true),
                 ("issuance-date-removed", Box::new(|d: &mut Value| { d.as_object_mut().unwrap().remove("issuanceDate"); d.as_object_mut().unwrap().remove("validFrom"); }), true),
+                // the date member of the OTHER data model in place of the document's own
+                ("issuance-date-replaced-by-other-models-member", Box::new(|d: &mut Value| {
+                    let o = d.as_object_mut().unwrap();
+                    let had_issuance = o.remove("issuanceDate").is_some();
+                    let had_valid_from = o.remove("validFrom").is_some();
+                    if had_issuance { o.insert("validFrom".into(), json!("2024-01-01T00:00:00Z")); }
+                    if had_valid_from { o.insert("issuanceDate".into(), json!("2024-01-01T00:00:00Z")); }
+                }), true),
             ];
             if !thorough {
                 r.shuffle(&mut edits[1..]);
@@ -240,7 +248,7 @@ pub fn run(tier: &str, seed: u64, outdir: &str) {
                 edit(&mut d);
                 // issuanceDate is required by the 1.1 data model only
                 let v11 = d["@context"].as_array().map_or(false, |a| a.iter().any(|x| x.as_str().map_or(false, |s| s.contains("2018/credentials"))));
-                let shape = *shape_ok && !(*ename == "issuance-date-removed" && v11);
+                let shape = *shape_ok && !((*ename == "issuance-date-removed" || *ename == "issuance-date-replaced-by-other-models-member") && v11);
                 let Ok(w2) = serde_json::from_value::<W3CCredential>(d.clone()) else {
                     out.bump(&format!("from_w3c:{}:not-deserialisable", ename));
                     continue;
